@@ -179,9 +179,19 @@ class Analysis:
             if not self.exclusive(x):
                 continue
             for c2 in self.chains(t2):
-                if c2[-1]["callee"] != x or c1[-1] is c2[-1]:
+                if c2[-1]["callee"] != x:
                     continue
-                if self.alt_exclusive(c1[-1]["ctx"], c2[-1]["ctx"]):
+                # "non-exclusive call paths": exclusivity is judged where the two call paths first diverge - below a
+                # shared nonexclusive ancestor nothing conflicts, otherwise (distinct transactions) at the outermost
+                # call sites, which must sit in different alternatives of one control structure
+                top = None
+                for a, b in zip(reversed(c1), reversed(c2)):
+                    if a["callee"] != b["callee"]:
+                        break
+                    top = a["callee"]
+                if top is not None and not self.exclusive(top):
+                    continue
+                if self.alt_exclusive(c1[0]["ctx"], c2[0]["ctx"]):
                     continue
                 r = True
                 break
